@@ -15,7 +15,6 @@ import (
 	"strconv"
 	"strings"
 	"testing"
-	"time"
 
 	"github.com/fiorix/go-diameter/diam"
 	"github.com/fiorix/go-diameter/diam/datatype"
@@ -25,6 +24,7 @@ import (
 	ccode "github.com/free5gc/chf/ccs_diameter/code"
 	cdt "github.com/free5gc/chf/ccs_diameter/datatype"
 	cdict "github.com/free5gc/chf/ccs_diameter/dict"
+	"verifharness/diamgen"
 	"verifharness/h"
 )
 
@@ -36,115 +36,17 @@ type msgCase struct {
 	T    int64           `json:"t"` // every Time member (datatype.Time has no JSON form) is set to this instant
 }
 
-var msgTypes = map[string]reflect.Type{
-	"SUR": reflect.TypeOf(cdt.ServiceUsageRequest{}), "SUA": reflect.TypeOf(cdt.ServiceUsageResponse{}),
-	"CCR": reflect.TypeOf(cdt.AccountDebitRequest{}), "CCA": reflect.TypeOf(cdt.AccountDebitResponse{}),
-}
+var msgTypes = diamgen.MsgTypes
 
-type fillStats struct{ optionalPresent, extreme int }
+type fillStats = diamgen.FillStats
 
-func fillDiam(t *rapid.T, v reflect.Value, depth int, st *fillStats) {
-	switch x := v.Interface().(type) {
-	case datatype.Unsigned32:
-		k := rapid.SampledFrom([]uint32{0, 1, 1 << 31, 1<<32 - 1, 7, 4006}).Draw(t, "u32")
-		if rapid.Bool().Draw(t, "u32any") {
-			k = rapid.Uint32().Draw(t, "u32v")
-		}
-		if k == 1<<32-1 || k == 1<<31 {
-			st.extreme++
-		}
-		v.Set(reflect.ValueOf(datatype.Unsigned32(k)))
-		return
-	case datatype.Unsigned64:
-		k := rapid.SampledFrom([]uint64{0, 1, 1 << 31, 1 << 32, 1<<63 - 1, 1 << 63, 1<<64 - 1, 12345}).Draw(t, "u64")
-		if rapid.Bool().Draw(t, "u64any") {
-			k = rapid.Uint64().Draw(t, "u64v")
-		}
-		if k >= 1<<63-1 {
-			st.extreme++
-		}
-		v.Set(reflect.ValueOf(datatype.Unsigned64(k)))
-		return
-	case datatype.Integer32:
-		k := rapid.SampledFrom([]int32{0, 1, -1, 1<<31 - 1, -1 << 31, -7}).Draw(t, "i32")
-		if rapid.Bool().Draw(t, "i32any") {
-			k = rapid.Int32().Draw(t, "i32v")
-		}
-		if k == 1<<31-1 || k == -1<<31 {
-			st.extreme++
-		}
-		v.Set(reflect.ValueOf(datatype.Integer32(k)))
-		return
-	case datatype.Integer64:
-		k := rapid.SampledFrom([]int64{0, 1, -1, 1<<63 - 1, -1 << 63, -123456789012}).Draw(t, "i64")
-		if rapid.Bool().Draw(t, "i64any") {
-			k = rapid.Int64().Draw(t, "i64v")
-		}
-		if k == 1<<63-1 || k == -1<<63 {
-			st.extreme++
-		}
-		v.Set(reflect.ValueOf(datatype.Integer64(k)))
-		return
-	case datatype.Enumerated:
-		v.Set(reflect.ValueOf(datatype.Enumerated(rapid.SampledFrom([]int32{0, 1, 2, 3, 4, 1<<31 - 1}).Draw(t, "enum"))))
-		return
-	case datatype.UTF8String:
-		v.Set(reflect.ValueOf(datatype.UTF8String(genStr(t, "utf8", true))))
-		return
-	case datatype.OctetString:
-		v.Set(reflect.ValueOf(datatype.OctetString(genStr(t, "octets", false))))
-		return
-	case datatype.DiameterIdentity:
-		v.Set(reflect.ValueOf(datatype.DiameterIdentity(genStr(t, "identity", false))))
-		return
-	case datatype.IPFilterRule:
-		v.Set(reflect.ValueOf(datatype.IPFilterRule(genStr(t, "rule", false))))
-		return
-	case datatype.Time:
-		sec := rapid.Int64Range(0, 4102444799).Draw(t, "time")
-		v.Set(reflect.ValueOf(datatype.Time(time.Unix(sec, 0))))
-		return
-	case datatype.Grouped:
-		_ = x
-		return // raw grouped members are left empty (the components never fill them)
-	}
-	switch v.Kind() {
-	case reflect.Int32: // named enumerations (RequestedAction, CcRequestType, ...)
-		v.SetInt(int64(rapid.SampledFrom([]int32{0, 1, 2, 3, 4}).Draw(t, "namedEnum")))
-	case reflect.Ptr:
-		if v.Type().Elem().Kind() == reflect.Struct && depth < 5 && rapid.Bool().Draw(t, "present") {
-			st.optionalPresent++
-			v.Set(reflect.New(v.Type().Elem()))
-			fillDiam(t, v.Elem(), depth+1, st)
-		}
-	case reflect.Struct:
-		for i := 0; i < v.NumField(); i++ {
-			if _, isTime := v.Field(i).Interface().(datatype.Time); !isTime && rapid.IntRange(0, 3).Draw(t, "skipField") == 0 && v.Field(i).Kind() != reflect.Ptr {
-				continue // zero value: the AVP is not sent (timestamps are always set by the components)
-			}
-			fillDiam(t, v.Field(i), depth, st)
-		}
-	}
-}
-
-func genStr(t *rapid.T, n string, unicode bool) string {
-	switch rapid.IntRange(0, 5).Draw(t, n+"Class") {
-	case 0:
-		return ""
-	case 1:
-		return "x"
-	case 2:
-		return strings.Repeat("a", 255)
-	case 3:
-		return strings.Repeat("Z", 4096)
-	case 4:
-		if unicode {
-			return "séssion-ü-日本"
-		}
-		return "server.example.org"
-	}
-	return rapid.StringMatching(`[a-z0-9;.]{1,20}`).Draw(t, n)
-}
+var (
+	fillDiam      = diamgen.FillDiam
+	genStr        = diamgen.GenStr
+	setTimes      = diamgen.SetTimes
+	countFeatures = diamgen.CountFeatures
+	diffValues    = diamgen.DiffValues
+)
 
 var lastStats fillStats
 
@@ -160,115 +62,6 @@ func genMsg(t *rapid.T) msgCase {
 	return msgCase{Kind: kind, Val: b, T: rapid.SampledFrom([]int64{0, 1, 946684800, 1790000000, 2085978495}).Draw(t, "time")}
 }
 
-func setTimes(v reflect.Value, sec int64) {
-	if _, ok := v.Interface().(datatype.Time); ok {
-		v.Set(reflect.ValueOf(datatype.Time(time.Unix(sec, 0))))
-		return
-	}
-	switch v.Kind() {
-	case reflect.Ptr:
-		if !v.IsNil() {
-			setTimes(v.Elem(), sec)
-		}
-	case reflect.Struct:
-		for i := 0; i < v.NumField(); i++ {
-			setTimes(v.Field(i), sec)
-		}
-	}
-}
-
-func countFeatures(v reflect.Value, st *fillStats) {
-	switch x := v.Interface().(type) {
-	case datatype.Unsigned32:
-		if x == 1<<32-1 || x == 1<<31 {
-			st.extreme++
-		}
-		return
-	case datatype.Unsigned64:
-		if x >= 1<<63-1 {
-			st.extreme++
-		}
-		return
-	case datatype.Integer32:
-		if x == 1<<31-1 || x == -1<<31 {
-			st.extreme++
-		}
-		return
-	case datatype.Integer64:
-		if x == 1<<63-1 || x == -1<<63 {
-			st.extreme++
-		}
-		return
-	case datatype.Time:
-		return
-	}
-	switch v.Kind() {
-	case reflect.Ptr:
-		if !v.IsNil() {
-			st.optionalPresent++
-			countFeatures(v.Elem(), st)
-		}
-	case reflect.Struct:
-		for i := 0; i < v.NumField(); i++ {
-			countFeatures(v.Field(i), st)
-		}
-	}
-}
-
-// diffValues compares field by field; pointers by content; Time by second.
-func diffValues(a, b reflect.Value, path string) string {
-	if ta, ok := a.Interface().(datatype.Time); ok {
-		tb := b.Interface().(datatype.Time)
-		if time.Time(ta).Unix() != time.Time(tb).Unix() {
-			return fmt.Sprintf("%s: sent %v, received %v", path, time.Time(ta).Unix(), time.Time(tb).Unix())
-		}
-		return ""
-	}
-	if _, ok := a.Interface().(datatype.Grouped); ok {
-		return "" // raw grouped placeholders: never filled by the components, not among the fields the property lists
-	}
-	switch a.Kind() {
-	case reflect.Ptr:
-		if a.IsNil() != b.IsNil() {
-			return fmt.Sprintf("%s: sent present=%v, received present=%v", path, !a.IsNil(), !b.IsNil())
-		}
-		if a.IsNil() {
-			return ""
-		}
-		return diffValues(a.Elem(), b.Elem(), path)
-	case reflect.Struct:
-		for i := 0; i < a.NumField(); i++ {
-			if d := diffValues(a.Field(i), b.Field(i), path+"."+a.Type().Field(i).Name); d != "" {
-				return d
-			}
-		}
-		return ""
-	case reflect.Slice:
-		if !bytes.Equal(a.Bytes(), b.Bytes()) {
-			return fmt.Sprintf("%s: sent %x, received %x", path, trunc(a.Bytes()), trunc(b.Bytes()))
-		}
-		return ""
-	}
-	if !reflect.DeepEqual(a.Interface(), b.Interface()) {
-		return fmt.Sprintf("%s: sent %v, received %v", path, short(a.Interface()), short(b.Interface()))
-	}
-	return ""
-}
-
-func trunc(b []byte) []byte {
-	if len(b) > 24 {
-		return b[:24]
-	}
-	return b
-}
-func short(x interface{}) string {
-	s := fmt.Sprint(x)
-	if len(s) > 60 {
-		return s[:60] + "..."
-	}
-	return s
-}
-
 func judgeMsg(c msgCase) *h.Verdict {
 	v := &h.Verdict{}
 	v.Label("msg:" + c.Kind)
@@ -279,13 +72,13 @@ func judgeMsg(c msgCase) *h.Verdict {
 	setTimes(sent.Elem(), c.T)
 	var st fillStats
 	countFeatures(sent.Elem(), &st)
-	if st.optionalPresent >= 1 {
+	if st.OptionalPresent >= 1 {
 		v.Label("optional-grouped-present")
 	}
-	if st.extreme >= 1 {
+	if st.Extreme >= 1 {
 		v.Label("range-extreme")
 	}
-	if st.optionalPresent >= 1 && st.extreme >= 1 {
+	if st.OptionalPresent >= 1 && st.Extreme >= 1 {
 		v.NonTrivial = true
 	}
 	var m *diam.Message
